@@ -230,9 +230,7 @@ Definition binop_of (y : sym) : option fbinop :=
   | SPlus => Some FSum | SMinus => Some FSub | SStar => Some FProd | SSlash => Some FDiv | SPercent => Some FRem
   | _ => None
   end.
-(* the actions of IfZRight .. IfGEZRight: `0 > t` is stored as Less, etc. *)
-Definition flip (c : fifsort) : fifsort :=
-  match c with FEq => FEq | FNe => FNe | FLt => FGt | FLe => FGe | FGt => FLt | FGe => FLe end.
+(* the actions of IfZRight .. IfGEZRight: `0 > t` is stored as Less, etc.: [flip] of Model/Printer.v *)
 Definition lit_ok (k : N) : bool := (k <=? i64_max)%N.
 
 (* The bool returned with a Term2 says whether it is a Term1 (only those may be operands of BinOp). *)
